@@ -201,19 +201,35 @@ func tplBalanceFor(w *World, r *Result, fns []string) int {
 				r.ok("TPL-4", fi.Name, "template "+fmt.Sprintf("%q", head), w.Pos(pos.Pos()), "brackets and block keywords balance outside strings and comments", false)
 			}
 		}
-		ast.Inspect(fi.Decl.Body, func(x ast.Node) bool {
-			switch v := x.(type) {
-			case *ast.BasicLit:
-				if tv := info.Types[v]; tv.Value != nil && tv.Value.Kind() == constant.String {
-					check(constant.StringVal(tv.Value), v)
+		var visit func(n ast.Node)
+		visit = func(n ast.Node) {
+			ast.Inspect(n, func(x ast.Node) bool {
+				switch v := x.(type) {
+				case *ast.BinaryExpr:
+					// a text built by concatenation is one template: its literal operands are pieces of it, balanced
+					// only together (`"json['" + name + "']"`)
+					if c := sprintfView(info, v); c != nil {
+						if tv := info.Types[c.Args[0]]; tv.Value != nil && tv.Value.Kind() == constant.String {
+							check(constant.StringVal(tv.Value), v)
+						}
+						for _, a := range c.Args[1:] {
+							visit(a)
+						}
+						return false
+					}
+				case *ast.BasicLit:
+					if tv := info.Types[v]; tv.Value != nil && tv.Value.Kind() == constant.String {
+						check(constant.StringVal(tv.Value), v)
+					}
+				case *ast.Ident:
+					if c, ok := info.Uses[v].(*types.Const); ok && c.Val().Kind() == constant.String {
+						check(constant.StringVal(c.Val()), v)
+					}
 				}
-			case *ast.Ident:
-				if c, ok := info.Uses[v].(*types.Const); ok && c.Val().Kind() == constant.String {
-					check(constant.StringVal(c.Val()), v)
-				}
-			}
-			return true
-		})
+				return true
+			})
+		}
+		visit(fi.Decl.Body)
 	}
 	return n
 }
